@@ -35,7 +35,7 @@ Bin(S1, S2, tags) == {<<t, a, b>> : t \in tags, a \in S1, b \in S2}
 J(t) == <<"just", <<t>>>>
 JJ(s, t) == <<"just", <<s, t>>>>
 
-Bounds == {<<0, Inf>>, <<1, Inf>>, <<0, 1>>, <<1, 2>>, <<2, 2>>}
+Bounds == {<<0, Inf>>, <<1, Inf>>, <<0, 1>>, <<1, 2>>, <<2, 2>>, <<0, 0>>}
 Reps(S, bs) == {<<"rep", a, b[1], b[2]>> : a \in {x \in S : ~CanEmpty(x)}, b \in bs}
 
 (* recovery strategies over leaf parsers *)
@@ -50,8 +50,10 @@ UnLayer(fam, S) ==
          \cup UnP(S, "filter", {"nfa"}) \cup UnP(S, "trymap", {"nfa"})
          \cup {<<"collect", r, "vec">> : r \in Reps(S, {<<0, Inf>>, <<1, Inf>>})}
     [] fam = "emit" ->
-         Un(S, {"ornot", "not", "rewind"}) \cup {<<"validate", a, "1", p>> : a \in S, p \in {"F", "nfa"}}
-         \cup {<<"collect", r, "vec">> : r \in Reps(S, {<<0, Inf>>, <<1, 2>>})}
+         \* few operators, emitting leaves: the interesting shapes (an emitter followed by a failure
+         \* inside a repetition / option / lookahead) are reached at size 4
+         Un(S, {"ornot", "not", "rewind"})
+         \cup {<<"collect", r, "vec">> : r \in Reps(S, {<<0, Inf>>})}
          \cup {<<"run", r>> : r \in Reps(S, {<<0, Inf>>})}
     [] fam = "err" ->
          Un(S, {"ornot", "rewind"}) \cup UnP(S, "filter", {"nfa"}) \cup UnP(S, "trymap", {"nfa", "T"})
@@ -91,18 +93,20 @@ BinLayer(fam, S1, S2) ==
     [] fam = "ctx" -> Bin(S1, S2, {"then", "or", "thenctx", "ignctx"})
     [] fam = "rep" -> Bin(S1, S2, {"then", "or"})
                       \cup {<<"collect", <<"sep", a, b, lh[1], lh[2], l, t>>, "vec">> :
-                              a \in {x \in S1 : ~CanEmpty(x)}, b \in S2, lh \in {<<0, Inf>>, <<1, 2>>, <<2, Inf>>},
+                              a \in {x \in S1 : ~CanEmpty(x)}, b \in S2, lh \in {<<0, Inf>>, <<1, 2>>, <<2, Inf>>, <<0, 0>>},
                               l \in BOOLEAN, t \in BOOLEAN}
 LeavesOf(fam) ==
   CASE fam = "peg" -> {J("a"), J("b"), JJ("a", "b"), <<"any">>, <<"oneof", <<"a", "b">>>>, <<"noneof", <<"a">>>>,
                        <<"sel", <<"a">>>>, <<"end">>, <<"empty">>, <<"cust", 1, TRUE>>, <<"cust", 1, FALSE>>}
-    [] fam = "emit" -> {J("a"), J("b"), <<"any">>, <<"cust", 1, FALSE>>}
+    [] fam = "emit" -> {J("a"), J("b"), <<"cust", 1, FALSE>>,
+                        <<"validate", <<"any">>, "1", "F">>,        \* consumes a token and emits
+                        <<"validate", <<"empty">>, "0", "F">>}      \* emits without consuming
     [] fam = "err" -> {J("a"), J("b"), JJ("a", "b"), <<"any">>, <<"end">>, <<"cust", 1, FALSE>>}
     [] fam = "rep" -> {J("a"), J("b"), J(","), JJ("a", "b"), <<"any">>}
     [] fam = "rcv" -> {J("a"), J("b"), JJ("a", "b"), <<"any">>}
     [] fam = "lbl" -> {J("a"), J("b"), JJ("a", "b"), <<"any">>, <<"end">>, <<"cust", 1, FALSE>>}
     [] fam = "memo" -> {J("a"), J("b"), JJ("a", "b"), <<"any">>, <<"cust", 1, FALSE>>}
-    [] fam = "ctx" -> {J("a"), J("b"), <<"any">>, <<"cfgjust">>, <<"mw", <<"any">>>>}
+    [] fam = "ctx" -> {J("a"), J("b"), <<"any">>, <<"cfgjust">>, <<"cfgjustr">>, <<"mw", <<"any">>>>}
 
 RECURSIVE GSz(_, _)
 GSz(fam, n) ==
